@@ -1,5 +1,5 @@
 (** Proofs about the model of `cooler dump` / `load` / `cload pairs` (Model/Dump.v). *)
-From Coq Require Import String Ascii QArith DecimalString DecimalZ Permutation Sorted ZifyBool.
+From Coq Require Import String Ascii QArith DecimalString DecimalZ Permutation Sorted ZifyBool FinFun.
 From Coq Require Import List.
 From Cooler Require Import Model.Dump Proofs.PixelsProofs.
 Open Scope Z_scope.
@@ -638,4 +638,526 @@ Proof.
     destruct (mapM _ t) eqn:Et at 1; [discriminate|]. intros _.
     rewrite IH; [reflexivity|]. exact Et.
   - intros _. destruct Hf as [Hf _]. now rewrite (Hf eq_refl).
+Qed.
+
+(* ================================================================= 7. the fill-lower engine *)
+Definition Upper (px : list pixel) : Prop := forall p, In p px -> row p <= col p.
+Definition InSymm (px : list pixel) (q : pixel) : Prop := In q px \/ (row q <> col q /\ In (flip q) px).
+
+Definition pixel_eqb (p q : pixel) : bool := (row p =? row q) && (col p =? col q) && (val p =? val q).
+Definition memb (q : pixel) (px : list pixel) : bool := existsb (pixel_eqb q) px.
+Lemma memb_In q px : In q px <-> memb q px = true.
+Proof.
+  unfold memb. rewrite existsb_exists. split.
+  - intro H. exists q. split; auto. unfold pixel_eqb. rewrite !Z.eqb_refl. reflexivity.
+  - intros [x [H1 H2]]. unfold pixel_eqb in H2.
+    destruct q as [[a b] c], x as [[a' b'] c']; unfold row, col, val in *; cbn in *.
+    assert (a = a' /\ b = b' /\ c = c') as (-> & -> & ->) by lia. exact H1.
+Qed.
+Lemma flip_flip p : flip (flip p) = p.
+Proof. destruct p as [[a b] c]; reflexivity. Qed.
+
+Lemma in_reader px i0 i1 j0 j1 s0 s1 q :
+  In q (reader px (i0, i1, j0, j1) (s0, s1) true) <->
+  (In q px /\ s0 <= row q < s1 /\ j0 <= col q < j1) \/
+  (In (flip q) px /\ s0 <= col q < s1 /\ j0 <= row q < j1 /\ row q <> col q /\ row q < i1).
+Proof.
+  unfold reader. cbn [fst snd]. rewrite in_app_iff, in_map_iff.
+  setoid_rewrite filter_In. setoid_rewrite filter_In. unfold inb. split.
+  - intros [[H1 H2]|[p [Hp [[H1 H2] H3]]]].
+    + left. split; auto. lia.
+    + right. subst q. rewrite flip_flip. unfold flip, row, col in *; cbn in *. split; auto. lia.
+  - intros [[H1 H2]|[H1 H2]].
+    + left. split; auto. lia.
+    + right. exists (flip q). rewrite flip_flip. split; auto.
+      unfold flip, row, col in *; cbn in *. repeat split; auto; lia.
+Qed.
+
+(** a chain of cuts covers exactly the rows from its first to its last element *)
+Lemma chain_cover cuts x :
+  Sorted Z.le cuts ->
+  (exists sp, In sp (spans_of cuts) /\ fst sp <= x < snd sp) <-> hd 0 cuts <= x < last cuts 0.
+Proof.
+  intro Hc. induction cuts as [|a t IH].
+  - cbn. split; [intros (sp & [] & _)|lia].
+  - destruct t as [|b t'].
+    + cbn. split; [intros (sp & [] & _)|lia].
+    + rewrite spans_of_cons. apply Sorted_inv in Hc as [Hc Hab]. apply HdRel_inv in Hab.
+      specialize (IH Hc). pose proof (sorted_le_last b t' Hc) as Hbl.
+      change (last (a :: b :: t') 0) with (last (b :: t') 0). cbn [hd] in *. split.
+      * intros (sp & [<-|Hin] & Hx); cbn [fst snd] in *; [lia|].
+        assert (b <= x < last (b :: t') 0) by (apply IH; now exists sp). lia.
+      * intros Hx. destruct (Z_lt_ge_dec x b) as [Hlt|Hge].
+        -- exists (a, b). split; [now left|cbn; lia].
+        -- destruct IH as [_ IH]. destruct (IH ltac:(lia)) as (sp & Hin & Hsp). exists sp. split; [now right|exact Hsp].
+Qed.
+
+(** membership in the chunked reflecting reader = membership in the one-span reader, for admissible cuts *)
+Lemma in_reader_chunks px i0 i1 j0 j1 cuts q :
+  AdmissibleCuts px (i0, i1, j0, j1) cuts ->
+  (In q (concat (map (fun sp => reader px (i0, i1, j0, j1) sp true) (spans_of cuts)))
+   <-> In q (reader px (i0, i1, j0, j1) (i0, i1) true)).
+Proof.
+  intros (Hc & Hhd & Hle & Hcov).
+  rewrite in_concat. setoid_rewrite in_map_iff.
+  assert (Hex : (exists l, (exists sp, reader px (i0, i1, j0, j1) sp true = l /\ In sp (spans_of cuts)) /\ In q l)
+                <-> exists sp, In sp (spans_of cuts) /\ In q (reader px (i0, i1, j0, j1) sp true)).
+  { split; [intros (l & (sp & <- & Hsp) & Hq); now exists sp|intros (sp & Hsp & Hq); eexists; split; [exists sp; split; [reflexivity|exact Hsp]|exact Hq]]. }
+  rewrite Hex. clear Hex. rewrite in_reader.
+  assert (Hrange : forall x, (exists sp, In sp (spans_of cuts) /\ fst sp <= x < snd sp) <-> i0 <= x < last cuts i0).
+  { intro x. rewrite (chain_cover cuts x Hc). destruct cuts as [|a t]; [cbn in *; lia|].
+    cbn [hd] in *. subst a. now rewrite (last_default i0 t 0 i0). }
+  assert (HcovA : In q px -> j0 <= col q < j1 -> i0 <= row q < i1 -> row q < last cuts i0).
+  { intros Hq Hcq Hrq. apply (Hcov q Hq). unfold span_pred, inb. lia. }
+  assert (HcovB : In (flip q) px -> j0 <= row q < j1 -> i0 <= col q < i1 -> col q < last cuts i0).
+  { intros Hq Hcq Hrq. specialize (Hcov (flip q) Hq). destruct q as [[a b] v].
+    unfold span_pred, inb, flip, row, col in *. cbn [fst snd] in *. apply Hcov. lia. }
+  split.
+  - intros ([s0 s1] & Hsp & Hq). rewrite in_reader in Hq.
+    assert (Hs : forall x, s0 <= x < s1 -> i0 <= x < last cuts i0).
+    { intros x Hx. apply Hrange. exists (s0, s1). now split. }
+    destruct Hq as [(Hq & Hr & Hcl)|(Hq & Hr & Hrest)].
+    + left. specialize (Hs _ Hr). repeat split; try assumption; lia.
+    + right. specialize (Hs _ Hr). repeat split; try tauto; lia.
+  - intros [(Hq & Hr & Hcl)|(Hq & Hr & Hcl & Hrest)].
+    + specialize (HcovA Hq Hcl Hr). destruct (proj2 (Hrange (row q)) ltac:(lia)) as ([s0 s1] & Hsp & Hx).
+      exists (s0, s1). split; [assumption|]. rewrite in_reader. left. cbn [fst snd] in Hx. repeat split; try assumption; lia.
+    + specialize (HcovB Hq Hcl Hr). destruct (proj2 (Hrange (col q)) ltac:(lia)) as ([s0 s1] & Hsp & Hx).
+      exists (s0, s1). split; [assumption|]. rewrite in_reader. right. cbn [fst snd] in Hx. repeat split; try tauto; lia.
+Qed.
+
+Definition fill_whole (px : list pixel) (t : bool * bbox) : list pixel :=
+  let '(i0, i1, j0, j1) := snd t in
+  let r := reader px (snd t) (i0, i1) true in if fst t then map flip r else r.
+Definition fill_select (px : list pixel) (bb : bbox) : option (list pixel) :=
+  option_map (fun plan => concat (map (fill_whole px) plan)) (fill_plan bb).
+
+Lemma in_map_flip q l : In q (map flip l) <-> In (flip q) l.
+Proof.
+  rewrite in_map_iff. split.
+  - intros (x & <- & Hx). now rewrite flip_flip.
+  - intro H. exists (flip q). now rewrite flip_flip.
+Qed.
+
+Theorem fill_select_in px i0 i1 j0 j1 q :
+  Upper px -> i0 <= i1 -> j0 <= j1 ->
+  match fill_select px (i0, i1, j0, j1) with
+  | Some l => In q l <-> (InSymm px q /\ i0 <= row q < i1 /\ j0 <= col q < j1)
+  | None => False
+  end.
+Proof.
+  intros HU Hi Hj. unfold fill_select, fill_plan, InSymm.
+  assert (HUq : In q px -> row q <= col q) by (intro; auto).
+  assert (HUf : In (flip q) px -> col q <= row q).
+  { intro H. apply HU in H. destruct q as [[a b] c]; unfold flip, row, col in *; cbn in *; lia. }
+  destruct (j1 <? i1) eqn:Eut; cbn [negb];
+  repeat match goal with
+  | |- context [if ?b then _ else _] => destruct b eqn:?
+  end; cbn [option_map map concat fill_whole fst snd negb];
+  rewrite ?app_nil_r, ?in_app_iff, ?in_map_flip, ?in_reader, ?flip_flip;
+  unfold comes_before, contains in *;
+  destruct q as [[a b] c]; unfold flip, row, col in *; cbn [fst snd] in *;
+  repeat match goal with H : context [if ?b then _ else _] |- _ => destruct b eqn:? end;
+  unfold val in *; cbn [snd] in *; destruct (Z.eq_dec a b) as [->|Hne]; clear HU;
+  rewrite ?memb_In in *; unfold pixel, key in *; try (
+  repeat match goal with |- context [memb ?q px] => generalize dependent (memb q px); intros end; lia).
+Qed.
+
+Lemma in_concat_map {A B} (f : A -> list B) l q :
+  In q (concat (map f l)) <-> exists t, In t l /\ In q (f t).
+Proof.
+  rewrite in_concat. setoid_rewrite in_map_iff. split.
+  - intros (x & (t & <- & Ht) & Hq). now exists t.
+  - intros (t & Ht & Hq). exists (f t). split; [now exists t|assumption].
+Qed.
+
+Lemma in_fill_task px cuts t q :
+  AdmissibleCuts px (snd t) (cuts (snd t)) ->
+  (In q (concat (fill_task px cuts t)) <-> In q (fill_whole px t)).
+Proof.
+  destruct t as [tr [[[i0 i1] j0] j1]]. cbn [snd]. intro Ha. unfold fill_task, fill_whole. cbn [fst snd].
+  destruct tr.
+  - rewrite <- (map_map (fun sp => reader px (i0, i1, j0, j1) sp true) (map flip)), <- concat_map.
+    rewrite !in_map_flip. now apply in_reader_chunks.
+  - now apply in_reader_chunks.
+Qed.
+
+(** every sub-box of the engine's plan is chunked admissibly *)
+Definition PlanAdmissible (px : list pixel) (bb : bbox) (cuts : bbox -> list Z) : Prop :=
+  forall plan t, fill_plan bb = Some plan -> In t plan -> AdmissibleCuts px (snd t) (cuts (snd t)).
+
+(** dump_eq_query, fill-lower engine, membership: for an upper-triangular table and every admissible chunking the
+    engine's records are exactly the records of the symmetric completion that lie inside the window *)
+Theorem fill_chunks_in px i0 i1 j0 j1 cuts q :
+  Upper px -> i0 <= i1 -> j0 <= j1 -> PlanAdmissible px (i0, i1, j0, j1) cuts ->
+  match fill_chunks px (i0, i1, j0, j1) cuts with
+  | Some chunks => In q (concat chunks) <-> (InSymm px q /\ i0 <= row q < i1 /\ j0 <= col q < j1)
+  | None => False
+  end.
+Proof.
+  intros HU Hi Hj Ha. pose proof (fill_select_in px i0 i1 j0 j1 q HU Hi Hj) as Hsel.
+  unfold fill_select, fill_chunks in *. unfold PlanAdmissible in Ha.
+  destruct (fill_plan (i0, i1, j0, j1)) as [plan|]; [|exact Hsel]. cbn [option_map] in *.
+  rewrite <- Hsel. rewrite in_concat_map. rewrite in_concat. split.
+  - intros (ch & Hch & Hq). apply in_concat_map in Hch as (t & Ht & Hch).
+    exists t. split; [assumption|]. apply (in_fill_task px cuts t q (Ha plan t eq_refl Ht)).
+    apply in_concat. now exists ch.
+  - intros (t & Ht & Hq). apply (in_fill_task px cuts t q (Ha plan t eq_refl Ht)) in Hq.
+    apply in_concat in Hq as (ch & Hch & Hq). exists ch. split; [|assumption].
+    apply in_concat_map. now exists t.
+Qed.
+
+(* ----- each record once: NoDup and the permutation with the symmetric completion inside the window *)
+Lemma nodup_app {A} (a b : list A) :
+  NoDup a -> NoDup b -> (forall x, In x a -> In x b -> False) -> NoDup (a ++ b).
+Proof.
+  induction a as [|x t IH]; intros Ha Hb Hd; [assumption|]. cbn.
+  apply NoDup_cons_iff in Ha as [Hx Ht]. constructor.
+  - rewrite in_app_iff. intros [H|H]; [contradiction|]. apply (Hd x); [now left|assumption].
+  - apply IH; try assumption. intros y Hy. apply Hd. now right.
+Qed.
+
+Lemma flip_inj : Injective flip.
+Proof. intros p q H. rewrite <- (flip_flip p), <- (flip_flip q). now rewrite H. Qed.
+
+Lemma nodup_reader px bb sp : Upper px -> NoDup px -> NoDup (reader px bb sp true).
+Proof.
+  destruct bb as [[[i0 i1] j0] j1]. intros HU Hn. unfold reader.
+  apply nodup_app.
+  - now apply NoDup_filter.
+  - apply Injective_map_NoDup; [exact flip_inj|]. now apply NoDup_filter, NoDup_filter.
+  - intros q Hq Hf. apply in_map_flip in Hf. rewrite !filter_In in *.
+    destruct Hq as [Hq _]. destruct Hf as [[Hf _] Hg].
+    apply HU in Hq. apply HU in Hf. destruct q as [[a b] v]. unfold flip, row, col in *. cbn [fst snd] in *. lia.
+Qed.
+
+Lemma nodup_fill_whole px t : Upper px -> NoDup px -> NoDup (fill_whole px t).
+Proof.
+  destruct t as [tr [[[i0 i1] j0] j1]]. intros HU Hn. unfold fill_whole. cbn [fst snd].
+  destruct tr; [apply Injective_map_NoDup; [exact flip_inj|]|]; now apply nodup_reader.
+Qed.
+
+Theorem fill_select_nodup px i0 i1 j0 j1 :
+  Upper px -> NoDup px -> i0 <= i1 -> j0 <= j1 ->
+  match fill_select px (i0, i1, j0, j1) with
+  | Some l => NoDup l
+  | None => False
+  end.
+Proof.
+  intros HU Hn Hi Hj. unfold fill_select, fill_plan.
+  destruct (j1 <? i1) eqn:Eut; cbn [negb];
+  repeat match goal with
+  | |- context [if ?b then _ else _] => destruct b eqn:?
+  end; cbn [option_map map concat]; rewrite ?app_nil_r;
+  try (now apply nodup_fill_whole);
+  try (apply nodup_app; [now apply nodup_fill_whole|now apply nodup_fill_whole|];
+       intros q; unfold fill_whole; cbn [fst snd negb];
+       rewrite ?in_map_flip, ?in_reader, ?flip_flip;
+       assert (HUq : In q px -> row q <= col q) by (intro; auto);
+       assert (HUf : In (flip q) px -> col q <= row q)
+         by (intro H; apply HU in H; destruct q as [[a b] c]; unfold flip, row, col in *; cbn in *; lia);
+       destruct q as [[a b] c]; unfold flip, row, col in *; cbn [fst snd] in *;
+       unfold comes_before, contains in *;
+       repeat match goal with H : context [if ?b then _ else _] |- _ => destruct b eqn:? end;
+       clear HU Hn; rewrite ?memb_In in *; unfold pixel, key in *;
+       repeat match goal with |- context [memb ?q px] => generalize dependent (memb q px); intros end; lia);
+  try (unfold comes_before, contains in *;
+       repeat match goal with H : context [if ?b then _ else _] |- _ => destruct b eqn:? end; lia).
+Qed.
+
+Lemma concat_app_perm {A B} (f g : A -> list B) l :
+  Permutation (concat (map (fun k => f k ++ g k) l)) (concat (map f l) ++ concat (map g l)).
+Proof.
+  induction l as [|x t IH]; [reflexivity|]. cbn [map concat].
+  rewrite IH. rewrite <- !app_assoc. apply Permutation_app_head.
+  rewrite !app_assoc. apply Permutation_app_tail. apply Permutation_app_comm.
+Qed.
+
+Lemma filter_concat {A} (f : A -> bool) l : filter f (concat l) = concat (map (filter f) l).
+Proof. induction l as [|x t IH]; [reflexivity|]. cbn. now rewrite filter_app, IH. Qed.
+
+(** the chunked reflecting reader is a rearrangement of the one-span reader *)
+Lemma reader_chunks_perm px i0 i1 j0 j1 cuts :
+  RowSorted px -> AdmissibleCuts px (i0, i1, j0, j1) cuts ->
+  Permutation (concat (map (fun sp => reader px (i0, i1, j0, j1) sp true) (spans_of cuts)))
+              (reader px (i0, i1, j0, j1) (i0, i1) true).
+Proof.
+  intros Hs Ha.
+  set (g := fun p : pixel => negb (row p =? col p) && (col p <? i1)).
+  set (base := fun sp : Z * Z => filter (span_pred j0 j1 (fst sp) (snd sp)) px).
+  assert (E : forall sp, reader px (i0, i1, j0, j1) sp true = base sp ++ map flip (filter g (base sp))) by reflexivity.
+  rewrite (map_ext _ _ E). rewrite (concat_app_perm base (fun sp => map flip (filter g (base sp)))).
+  assert (Eb : concat (map base (spans_of cuts)) = base (i0, i1)).
+  { pose proof (direct_chunks_concat px (i0, i1, j0, j1) (fun _ => cuts) Hs Ha) as H.
+    unfold direct_chunks in H. rewrite window_select_pred in H. exact H. }
+  rewrite E, <- Eb.
+  rewrite <- (map_map base (fun l => map flip (filter g l))).
+  rewrite <- (map_map (filter g) (map flip)), <- concat_map, <- filter_concat. reflexivity.
+Qed.
+
+Lemma concat_map_perm {A B} (f g : A -> list B) l :
+  (forall x, In x l -> Permutation (f x) (g x)) -> Permutation (concat (map f l)) (concat (map g l)).
+Proof.
+  induction l as [|x t IH]; intro H; [reflexivity|]. cbn.
+  apply Permutation_app; [apply H; now left|apply IH; intros y Hy; apply H; now right].
+Qed.
+
+Lemma fill_task_perm px cuts t :
+  RowSorted px -> AdmissibleCuts px (snd t) (cuts (snd t)) ->
+  Permutation (concat (fill_task px cuts t)) (fill_whole px t).
+Proof.
+  destruct t as [tr [[[i0 i1] j0] j1]]. cbn [snd]. intros Hs Ha. unfold fill_task, fill_whole. cbn [fst snd].
+  destruct tr.
+  - rewrite <- (map_map (fun sp => reader px (i0, i1, j0, j1) sp true) (map flip)), <- concat_map.
+    apply Permutation_map. now apply reader_chunks_perm.
+  - now apply reader_chunks_perm.
+Qed.
+
+Lemma concat_concat_map {A B} (f : A -> list (list B)) l :
+  concat (concat (map f l)) = concat (map (fun t => concat (f t)) l).
+Proof. induction l as [|x t IH]; [reflexivity|]. cbn. now rewrite concat_app, IH. Qed.
+
+(** the specification the fill-lower dump is compared with: the symmetric completion inside the window *)
+Definition fill_spec (px : list pixel) (bb : bbox) : list pixel :=
+  filter (fun p => in_window bb (fst p)) (symm_completion px).
+
+Lemma in_fill_spec px i0 i1 j0 j1 q :
+  In q (fill_spec px (i0, i1, j0, j1)) <-> InSymm px q /\ i0 <= row q < i1 /\ j0 <= col q < j1.
+Proof.
+  unfold fill_spec, symm_completion, InSymm, in_window, inb. rewrite filter_In, in_app_iff, in_map_flip, filter_In.
+  destruct q as [[a b] v]. unfold flip, row, col, val. cbn [fst snd]. split.
+  - intros [[H|[H Hd]] Hw]; (split; [|lia]); [now left|right]. split; [lia|assumption].
+  - intros [[H|[Hd H]] Hw]; (split; [|lia]); [now left|right]. split; [assumption|lia].
+Qed.
+
+Lemma nodup_fill_spec px bb : Upper px -> NoDup px -> NoDup (fill_spec px bb).
+Proof.
+  intros HU Hn. unfold fill_spec, symm_completion. apply NoDup_filter. apply nodup_app.
+  - assumption.
+  - apply Injective_map_NoDup; [exact flip_inj|]. now apply NoDup_filter.
+  - intros q Hq Hf. apply in_map_flip in Hf. rewrite filter_In in Hf. destruct Hf as [Hf Hd].
+    apply HU in Hq. apply HU in Hf. destruct q as [[a b] v]. unfold flip, row, col in *. cbn [fst snd] in *. lia.
+Qed.
+
+(** dump_eq_query, fill-lower engine: exactly the symmetric completion inside the window, each record once *)
+Theorem fill_chunks_perm px i0 i1 j0 j1 cuts :
+  Upper px -> NoDup px -> RowSorted px -> i0 <= i1 -> j0 <= j1 -> PlanAdmissible px (i0, i1, j0, j1) cuts ->
+  match fill_chunks px (i0, i1, j0, j1) cuts with
+  | Some chunks => Permutation (concat chunks) (fill_spec px (i0, i1, j0, j1)) /\ NoDup (concat chunks)
+  | None => False
+  end.
+Proof.
+  intros HU Hn Hs Hi Hj Ha.
+  pose proof (fill_select_nodup px i0 i1 j0 j1 HU Hn Hi Hj) as Hnd.
+  pose proof (fun q => fill_chunks_in px i0 i1 j0 j1 cuts q HU Hi Hj Ha) as Hin.
+  unfold fill_select, fill_chunks in *. unfold PlanAdmissible in Ha.
+  destruct (fill_plan (i0, i1, j0, j1)) as [plan|]; [|exact Hnd]. cbn [option_map] in *.
+  assert (Hp : Permutation (concat (concat (map (fill_task px cuts) plan))) (concat (map (fill_whole px) plan))).
+  { rewrite concat_concat_map. apply concat_map_perm. intros t Ht. apply fill_task_perm; [assumption|].
+    now apply (Ha plan t eq_refl Ht). }
+  assert (Hnd' : NoDup (concat (concat (map (fill_task px cuts) plan)))).
+  { apply (Permutation_NoDup (Permutation_sym Hp)). exact Hnd. }
+  split; [|exact Hnd'].
+  apply NoDup_Permutation; [exact Hnd'|now apply nodup_fill_spec|].
+  intro q. rewrite (Hin q). symmetry. apply in_fill_spec.
+Qed.
+
+(* ================================================================= 9. load (dump --join c) = c, BG2 *)
+Lemma index_of_nth (l : list string) d : forall i k,
+  NoDup l -> (i < length l)%nat -> index_of (nth i l d) l k = Some (k + Z.of_nat i).
+Proof.
+  induction l as [|a t IH]; intros i k Hn Hi; [cbn in Hi; lia|].
+  apply NoDup_cons_iff in Hn as [Ha Hn]. destruct i as [|i']; cbn [nth index_of].
+  - rewrite String.eqb_refl. f_equal. lia.
+  - cbn in Hi. destruct (String.eqb (nth i' t d) a) eqn:E.
+    + apply String.eqb_eq in E. exfalso. apply Ha. rewrite <- E. apply nth_In. lia.
+    + rewrite IH by (assumption || lia). f_equal. lia.
+Qed.
+
+Definition bin_has (c s : Z) (y : bin) : bool := (bchrom y =? c) && (bstart y <=? s) && (s <? bend y).
+
+Lemma find_bin_from_first bins c s : forall i k x,
+  nth_error bins i = Some x -> bin_has c s x = true ->
+  (forall j y, (j < i)%nat -> nth_error bins j = Some y -> bin_has c s y = false) ->
+  find_bin_from k bins c s = Some (k + Z.of_nat i).
+Proof.
+  induction bins as [|y t IH]; intros i k x Hx Hm Hfirst; [destruct i; discriminate|].
+  destruct i as [|i']; cbn [find_bin_from].
+  - cbn in Hx. injection Hx as ->. unfold bin_has in Hm. rewrite Hm. f_equal. lia.
+  - pose proof (Hfirst 0%nat y ltac:(lia) eq_refl) as H0. unfold bin_has in H0. rewrite H0.
+    rewrite (IH i' (k + 1) x Hx Hm); [f_equal; lia|].
+    intros j z Hj Hz. apply (Hfirst (S j) z); [lia|exact Hz].
+Qed.
+
+(** what the round trip needs of the bin table: every bin is non-empty, names a known chromosome, and its start lies in no
+    other bin of the same chromosome (true of every valid tiling); for the triangle test also that the table is listed
+    in (chromosome, start) order *)
+Record BinsOK (bins : list bin) (names : list string) : Prop := {
+  bo_names : NoDup names;
+  bo_chrom : forall x, In x bins -> 0 <= bchrom x < Z.of_nat (length names);
+  bo_nonempty : forall x, In x bins -> bstart x < bend x;
+  bo_disjoint : forall i j x y, nth_error bins i = Some x -> nth_error bins j = Some y ->
+                bchrom x = bchrom y -> bstart y <= bstart x < bend y -> i = j;
+  bo_ordered : forall i j x y, (i <= j)%nat -> nth_error bins i = Some x -> nth_error bins j = Some y ->
+               kltb (bchrom y, bstart y) (bchrom x, bstart x) = false
+}.
+
+Lemma find_bin_own bins names i x :
+  BinsOK bins names -> nth_error bins i = Some x -> find_bin bins (bchrom x) (bstart x) = Some (Z.of_nat i).
+Proof.
+  intros Hok Hx. unfold find_bin. rewrite (find_bin_from_first bins (bchrom x) (bstart x) i 0 x Hx); [reflexivity| |].
+  - unfold bin_has. pose proof (bo_nonempty _ _ Hok x (nth_error_In _ _ Hx)). lia.
+  - intros j y Hj Hy. apply not_true_is_false. intro Hm. unfold bin_has in Hm.
+    assert (i = j) by (apply (bo_disjoint _ _ Hok i j x y Hx Hy); lia). lia.
+Qed.
+
+Definition bg2_schema : schema :=
+  {| s_in := ["chrom1"; "start1"; "end1"; "chrom2"; "start2"; "end2"; "count"]%string;
+     s_num := [("chrom1", 0); ("start1", 1); ("end1", 2); ("chrom2", 3); ("start2", 4); ("end2", 5); ("count", 6)]%string;
+     s_out := ["bin1_id"; "bin2_id"; "count"]%string |}.
+Lemma load_schema_bg2_default : load_schema true [] = Some bg2_schema.
+Proof. reflexivity. Qed.
+
+Definition InRange (bins : list bin) (px : list pixel) : Prop :=
+  forall p, In p px -> 0 <= row p < Z.of_nat (length bins) /\ 0 <= col p < Z.of_nat (length bins).
+
+(** the anchor record `dump --join [--one-based-starts]` prints for pixel p *)
+Definition anchor_of (bins : list bin) (ob : bool) (p : pixel) : anchor_rec :=
+  let b1 := nth (Z.to_nat (row p)) bins (0, 0, 0) in
+  let b2 := nth (Z.to_nat (col p)) bins (0, 0, 0) in
+  let d := if ob then 1 else 0 in
+  ((bchrom b1, bstart b1 + d), (bchrom b2, bstart b2 + d), val p).
+
+Lemma bg2_record_printed names (c1 c2 : string) s1 e1 s2 e2 v i1 i2 :
+  index_of c1 names 0 = Some i1 -> index_of c2 names 0 = Some i2 ->
+  bg2_record names bg2_schema "count" [c1; print_Z s1; print_Z e1; c2; print_Z s2; print_Z e2; print_Z v]
+  = Some ((i1, s1), (i2, s2), v).
+Proof.
+  intros H1 H2. unfold bg2_record.
+  generalize (parse_print_Z s1), (parse_print_Z s2), (parse_print_Z v).
+  generalize (print_Z s1), (print_Z e1), (print_Z s2), (print_Z e2), (print_Z v). intros x1 y1 x2 y2 z Hx1 Hx2 Hz.
+  let t := eval vm_compute in (read_fields (s_in bg2_schema) (s_num bg2_schema) [c1; x1; y1; c2; x2; y2; z]) in
+  change (read_fields (s_in bg2_schema) (s_num bg2_schema) [c1; x1; y1; c2; x2; y2; z]) with t.
+  cbn. now rewrite H1, H2, Hx1, Hx2, Hz.
+Qed.
+
+Lemma nth_error_of_nth {A} (l : list A) i d : (i < length l)%nat -> nth_error l i = Some (nth i l d).
+Proof. intro H. now apply nth_error_nth'. Qed.
+
+Lemma mapM_bg2_text bins names ob px :
+  BinsOK bins names -> InRange bins px ->
+  mapM (bg2_record names bg2_schema "count") (bg2_text bins names ob px) = Some (map (anchor_of bins ob) px).
+Proof.
+  intros Hok Hr. induction px as [|p t IH]; [reflexivity|].
+  unfold bg2_text in *. cbn [map mapM].
+  assert (Hp : 0 <= row p < Z.of_nat (length bins) /\ 0 <= col p < Z.of_nat (length bins)) by (apply Hr; now left).
+  set (b1 := nth (Z.to_nat (row p)) bins (0, 0, 0)). set (b2 := nth (Z.to_nat (col p)) bins (0, 0, 0)).
+  assert (Hb1 : In b1 bins) by (apply nth_In; lia). assert (Hb2 : In b2 bins) by (apply nth_In; lia).
+  pose proof (bo_chrom _ _ Hok b1 Hb1) as Hc1. pose proof (bo_chrom _ _ Hok b2 Hb2) as Hc2.
+  rewrite (bg2_record_printed names _ _ _ _ _ _ _ (bchrom b1) (bchrom b2)).
+  - rewrite IH; [reflexivity|]. intros q Hq. apply Hr. now right.
+  - rewrite (index_of_nth names EmptyString (Z.to_nat (bchrom b1)) 0 (bo_names _ _ Hok)) by lia. f_equal. lia.
+  - rewrite (index_of_nth names EmptyString (Z.to_nat (bchrom b2)) 0 (bo_names _ _ Hok)) by lia. f_equal. lia.
+Qed.
+
+Lemma sanitize_anchor bins names ob t px p :
+  BinsOK bins names -> InRange bins px -> tril_harmless t px -> In p px ->
+  sanitize_record bins ob t (anchor_of bins ob p) = Some [p].
+Proof.
+  intros Hok Hr Ht Hp. destruct (Hr p Hp) as [Hrow Hcol].
+  unfold sanitize_record, anchor_of.
+  set (b1 := nth (Z.to_nat (row p)) bins (0, 0, 0)). set (b2 := nth (Z.to_nat (col p)) bins (0, 0, 0)).
+  assert (E1 : nth_error bins (Z.to_nat (row p)) = Some b1) by (apply nth_error_of_nth; lia).
+  assert (E2 : nth_error bins (Z.to_nat (col p)) = Some b2) by (apply nth_error_of_nth; lia).
+  assert (Ea : forall d, (if ob then (bchrom b1, bstart b1 + (if ob then 1 else 0) - 1 + d - d) else (bchrom b1, bstart b1 + (if ob then 1 else 0))) = (bchrom b1, bstart b1)).
+  { intro d. destruct ob; f_equal; lia. }
+  assert (F1 : find_bin bins (bchrom b1) (bstart b1) = Some (row p)).
+  { rewrite (find_bin_own bins names _ b1 Hok E1). f_equal. lia. }
+  assert (F2 : find_bin bins (bchrom b2) (bstart b2) = Some (col p)).
+  { rewrite (find_bin_own bins names _ b2 Hok E2). f_equal. lia. }
+  assert (Hnt : t <> Keep -> kltb (bchrom b2, bstart b2) (bchrom b1, bstart b1) = false).
+  { intro Hk. destruct Ht as [->|Hu]; [contradiction|]. specialize (Hu p Hp).
+    apply (bo_ordered _ _ Hok (Z.to_nat (row p)) (Z.to_nat (col p)) b1 b2); [lia|assumption|assumption]. }
+  destruct p as [[a b] v]. unfold row, col, val in *. cbn [fst snd] in *.
+  destruct ob; cbn [fst snd].
+  - replace (bstart b1 + 1 - 1) with (bstart b1) by lia. replace (bstart b2 + 1 - 1) with (bstart b2) by lia.
+    destruct t; [rewrite (Hnt ltac:(discriminate))|rewrite (Hnt ltac:(discriminate))|]; cbn [negb fst snd]; now rewrite F1, F2.
+  - rewrite !Z.add_0_r.
+    destruct t; [rewrite (Hnt ltac:(discriminate))|rewrite (Hnt ltac:(discriminate))|]; cbn [negb fst snd]; now rewrite F1, F2.
+Qed.
+
+Theorem load_anchor_recs_roundtrip bins names ob t chunk px :
+  BinsOK bins names -> InRange bins px -> SSorted px -> tril_harmless t px ->
+  load_anchor_recs bins ob t chunk (map (anchor_of bins ob) px) = Some px.
+Proof.
+  intros Hok Hr Hs Ht. unfold load_anchor_recs. rewrite chunks_of_map.
+  assert (E : mapM (fun ch => option_map (@concat pixel) (mapM (sanitize_record bins ob t) ch))
+                   (map (map (anchor_of bins ob)) (chunks_of chunk px)) = Some (chunks_of chunk px)).
+  { rewrite <- (map_id (chunks_of chunk px)) at 2.
+    assert (G : forall chs, (forall ch, In ch chs -> forall p, In p ch -> In p px) ->
+                mapM (fun ch => option_map (@concat pixel) (mapM (sanitize_record bins ob t) ch))
+                     (map (map (anchor_of bins ob)) chs) = Some (map (fun x => x) chs)).
+    { induction chs as [|ch rest IHc]; intro Hall; [reflexivity|]. cbn [map mapM].
+      assert (Ech : mapM (sanitize_record bins ob t) (map (anchor_of bins ob) ch) = Some (map (fun p => [p]) ch)).
+      { clear IHc. assert (Hin : forall p, In p ch -> In p px) by (apply Hall; now left).
+        clear Hall. induction ch as [|p tl IHp]; [reflexivity|]. cbn [map mapM].
+        rewrite (sanitize_anchor bins names ob t px p Hok Hr Ht (Hin p (or_introl eq_refl))).
+        rewrite IHp; [reflexivity|]. intros q Hq. apply Hin. now right. }
+      rewrite Ech. cbn [option_map].
+      rewrite IHc by (intros c0 Hc0; apply Hall; now right).
+      f_equal. f_equal. clear. induction ch as [|p tl IH]; [reflexivity|]. cbn. now rewrite IH. }
+    apply G. intros ch Hch p Hp. now apply (in_chunk_in chunk px ch). }
+  rewrite E.
+  assert (Hd : existsb has_dup_key (chunks_of chunk px) = false).
+  { apply not_true_is_false. intro X. apply existsb_exists in X as (ch & Hch & Hdup).
+    pose proof (chunks_fuel_infix (length px) chunk px) as Hin. rewrite Forall_forall in Hin.
+    destruct (Hin ch Hch) as (a & b & Eab). rewrite <- Eab in Hs.
+    rewrite (SSorted_no_dup_key ch (SSorted_infix _ _ _ Hs)) in Hdup. discriminate. }
+  rewrite Hd, concat_chunks_of. f_equal. now apply aggregate_sorted_id.
+Qed.
+
+(** load_dump_roundtrip, BG2 *)
+Theorem load_dump_roundtrip_bg2 bins names ob t chunk px :
+  BinsOK bins names -> InRange bins px -> SSorted px -> tril_harmless t px ->
+  load_bg2 bins names bg2_schema "count" ob t chunk (bg2_text bins names ob px) = Some px.
+Proof.
+  intros Hok Hr Hs Ht. unfold load_bg2. rewrite (mapM_bg2_text bins names ob px Hok Hr).
+  now apply load_anchor_recs_roundtrip with (names := names).
+Qed.
+
+Lemma names_nodup_b_sound l : names_nodup_b l = true -> NoDup l.
+Proof.
+  induction l as [|x t IH]; intro H; [constructor|]. cbn in H. apply andb_prop in H as [Hx Ht].
+  constructor; [|now apply IH]. intro Hin. apply negb_true_iff in Hx.
+  assert (existsb (String.eqb x) t = true) by (apply existsb_exists; exists x; split; [assumption|apply String.eqb_refl]).
+  congruence.
+Qed.
+
+Lemma bins_sorted_b_pairs l : bins_sorted_b l = true ->
+  forall i j x y, (i < j)%nat -> nth_error l i = Some x -> nth_error l j = Some y -> binltb x y = true.
+Proof.
+  induction l as [|a t IH]; intros H i j x y Hij Hx Hy; [destruct i; discriminate|].
+  cbn in H. apply andb_prop in H as [Ha Ht]. destruct i as [|i'], j as [|j']; try lia.
+  - cbn in Hx, Hy. injection Hx as <-. rewrite forallb_forall in Ha. apply Ha. now apply nth_error_In in Hy.
+  - cbn in Hx, Hy. apply (IH Ht i' j' x y); [lia|assumption|assumption].
+Qed.
+
+Theorem bins_ok_b_sound bins names : bins_ok_b bins names = true -> BinsOK bins names.
+Proof.
+  unfold bins_ok_b. intro H. apply andb_prop in H as [H Hs]. apply andb_prop in H as [Hn Hf].
+  rewrite forallb_forall in Hf. pose proof (bins_sorted_b_pairs bins Hs) as Hp.
+  constructor.
+  - now apply names_nodup_b_sound.
+  - intros x Hx. specialize (Hf x Hx). lia.
+  - intros x Hx. specialize (Hf x Hx). lia.
+  - intros i j x y Hx Hy Hc Hr.
+    pose proof (Hf x (nth_error_In _ _ Hx)) as Hfx. pose proof (Hf y (nth_error_In _ _ Hy)) as Hfy.
+    destruct (Nat.lt_trichotomy i j) as [Hlt|[Heq|Hgt]]; [|assumption|].
+    + specialize (Hp i j x y Hlt Hx Hy). unfold binltb in Hp. lia.
+    + specialize (Hp j i y x Hgt Hy Hx). unfold binltb in Hp. lia.
+  - intros i j x y Hij Hx Hy.
+    pose proof (Hf x (nth_error_In _ _ Hx)) as Hfx.
+    destruct (Nat.eq_dec i j) as [->|Hne].
+    + rewrite Hx in Hy. injection Hy as <-. unfold kltb. cbn [fst snd]. lia.
+    + specialize (Hp i j x y ltac:(lia) Hx Hy). unfold binltb in Hp. unfold kltb. cbn [fst snd]. lia.
 Qed.
